@@ -5,10 +5,10 @@ package core
 
 import (
 	"fmt"
-	"regexp"
 	"go/token"
 	"go/types"
 	"os"
+	"regexp"
 	"sort"
 	"strings"
 	"time"
@@ -22,12 +22,12 @@ const ModPath = "sigs.k8s.io/karpenter/"
 
 // World is the resolved program all rules query.
 type World struct {
-	RepoDir string
-	Fset    *token.FileSet
-	Pkgs    []*packages.Package // all karpenter packages loaded (roots)
+	RepoDir   string
+	Fset      *token.FileSet
+	Pkgs      []*packages.Package // all karpenter packages loaded (roots)
 	PkgByPath map[string]*packages.Package
-	Prog    *ssa.Program
-	SSAPkg  map[string]*ssa.Package
+	Prog      *ssa.Program
+	SSAPkg    map[string]*ssa.Package
 
 	// karpenter-rooted functions (named, methods, closures, instantiations whose origin is karpenter)
 	Fns    []*ssa.Function
